@@ -6,6 +6,8 @@ From Coq Require Import Strings.Byte.
 Require Import BS.Bytes BS.Common BS.Api BS.Layout BS.Format BS.FormatFacts BS.Spec BS.SpecStep BS.Sections.
 Require Import BS.FS BS.FSFacts BS.Meta BS.MetaFacts BS.Header BS.Reader BS.ReaderFacts BS.Index BS.Data BS.DataFacts BS.Seek BS.SeekFacts BS.Series BS.SeriesFacts BS.ReadAllFacts.
 Require Import BS.OverflowFacts.
+Require Import BS.Common BS.Api BS.Index BS.Data BS.Seek BS.SeekGenFacts.
+Require BSgen.SeekGen.
 Import ListNotations.
 
 (* (I refines S) FULL STATEMENT for series without caches: for every pair of bounds and every n >= 1,
@@ -45,3 +47,17 @@ Theorem C10_mean_between : forall (xs:list N) lo hi, xs <> [] -> Forall (fun x =
   (lo <= sum_N xs / N.of_nat (length xs) <= hi)%N.
 Proof. exact mean_between. Qed.
 Print Assumptions C10_mean_between.
+
+(* the bound arithmetic and the 65534 comparison of the seek, as the current source text makes them (translated on every run by
+   tools/translate_seek.py into gen/SeekGen.v), are the model's: the reads and the repair this property speaks of go through them *)
+Theorem C10_source_start_bound_is_model : forall d b first last, data_range d = Ok (Some (first, last)) ->
+  checked_start_time d b = BSgen.SeekGen.gen_checked_start first last b.
+Proof. exact gen_checked_start_is_model. Qed.
+Print Assumptions C10_source_start_bound_is_model.
+Theorem C10_source_end_bound_is_model : forall d b first last, data_range d = Ok (Some (first, last)) ->
+  checked_end_time d b = BSgen.SeekGen.gen_checked_end first last b.
+Proof. exact gen_checked_end_is_model. Qed.
+Print Assumptions C10_source_end_bound_is_model.
+Theorem C10_source_in_gap_is_model : forall val gs, in_gap val gs = BSgen.SeekGen.gen_in_gap val gs.
+Proof. exact gen_in_gap_is_model. Qed.
+Print Assumptions C10_source_in_gap_is_model.
